@@ -8,12 +8,13 @@ package contracts
 //@ package utf8
 //@
 //@ # DecR/DecSize: the (deterministic) result of utf8.DecodeRune as a function of the bytes it is given.
-//@ specfun DecR(v seq[byte], n int) int
-//@ specfun DecSize(v seq[byte], n int) int
+//@ # (a = backing array, o = absolute offset of the first byte, n = number of bytes available)
+//@ specfun DecR(a seq[byte], o int, n int) int
+//@ specfun DecSize(a seq[byte], o int, n int) int
 //@
 //@ func utf8.DecodeRune(p) (r, size)
 //@   trusted
-//@   ensures [fun] r == DecR(view(p), len(p)) && size == DecSize(view(p), len(p))
+//@   ensures [fun] r == DecR(raw(p), off(p), len(p)) && size == DecSize(raw(p), off(p), len(p))
 //@   ensures [empty] imp(len(p) == 0, r == 0xFFFD && size == 0)
 //@   ensures [range] imp(len(p) > 0, 1 <= size && size <= 4 && size <= len(p) && 0 <= r && r <= 0x10FFFF)
 //@   ensures [ascii] imp(len(p) > 0 && p[0] < 0x80, r == p[0] && size == 1)
